@@ -269,6 +269,7 @@ func c12Run(c *mon.Ctx) {
 	}
 	randomPairs(c, o, &item, sink)
 	largePairs(c, o, &item, sink)
+	c12Trees(c)
 	// corpus rings against a few fixed partners, every rotation
 	for ri, nr := range gen.Corpus {
 		for v := 0; v < 4; v++ {
@@ -296,9 +297,13 @@ func init() {
 	for _, n := range c12Names {
 		must = append(must, "base_true "+n)
 	}
+	for _, t := range c12TreeMaps {
+		must = append(must, "transform tree "+t.Name)
+	}
+	must = append(must, "tree_pairs_parsed", "tree_pairs_some_answer_true")
 	mon.Register(&mon.Prop{
 		ID:          "C12",
-		Rule:        "contact-biased random valid pairs of all 16 kind combinations (same generators as C02/C03) and corpus rings against shapes drawn around them; for each pair the four answers (A contains B, B contains A, intersects in both orders) are recomputed under 12 exact transformations applied to both shapes (translations incl. +-(2^20-64) and 1/8, scalings by 2, 1024, 1/2, 1/8, reflections, 180-degree turn, diagonal and anti-diagonal swaps), under Move(), under every rotation of the start vertex of each ring (<=12 vertices; 8 random rotations beyond), reversal of rings and lines, re-encoded and re-ordered holes, and with the closing vertex added/removed. Oracle-free: all answers must equal the original ones; only when they differ is the exact oracle consulted to find the wrong side and to attribute it through the decision-site tracer. Non-trivial = distinct pair whose boxes meet.",
+		Rule:        "contact-biased random valid pairs of all 16 kind combinations (same generators as C02/C03) and corpus rings against shapes drawn around them; for each pair the four answers (A contains B, B contains A, intersects in both orders) are recomputed under 12 exact transformations applied to both shapes (translations incl. +-(2^20-64) and 1/8, scalings by 2, 1024, 1/2, 1/8, reflections, 180-degree turn, diagonal and anti-diagonal swaps), under Move(), under every rotation of the start vertex of each ring (<=12 vertices; 8 random rotations beyond), reversal of rings and lines, re-encoded and re-ordered holes, and with the closing vertex added/removed. Object trees (collections, nested collections, Features; constructor-built and parsed under child-index thresholds 0/1/2/4/64) are compared under 7 of the transformations at object level. Oracle-free: all answers must equal the original ones; only when they differ is the exact oracle consulted to find the wrong side and to attribute it through the decision-site tracer. Non-trivial = distinct pair whose boxes meet.",
 		Assumptions: []string{"valid shapes on the exact domain; transformations whose result is not exactly representable are skipped and counted", "a difference is a known finding only if the wrong side is explained by the listed sites of F4/F5 or by F24; otherwise it is a violation"},
 		Run:         c12Run,
 		MustSee:     must,
